@@ -131,6 +131,9 @@ func init() {
 		"(time.Time).Hour":  func(fr *frame, a []value) value { return concreteTime(a[0], "Hour").Hour() },
 		"(time.Time).YearDay": func(fr *frame, a []value) value { return concreteTime(a[0], "YearDay").YearDay() },
 		"(time.Time).Format": func(fr *frame, a []value) value {
+			if isSym(timeNS(a[0])) {
+				return symMarker // only ever logged; comparing it aborts the path
+			}
 			return concreteTime(a[0], "Format").Format(a[1].(string))
 		},
 		"(time.Time).String": func(fr *frame, a []value) value { return "<time>" },
@@ -454,7 +457,17 @@ func timeUnix(fr *frame, a []value) value {
 func durF(f func(time.Duration) value) externalFn {
 	return func(fr *frame, a []value) value {
 		if isSym(a[0]) {
-			panic(engineError{"time.Duration method on symbolic value"})
+			r := f(time.Duration(0))
+			if _, isStr := r.(string); isStr {
+				return symMarker
+			}
+			// Seconds/Minutes/Hours of a symbolic duration: an arbitrary
+			// float (over-approximation). In the code under test these only
+			// size log-search windows and messages.
+			i := fr.i
+			i.path.notes = append(i.path.notes, "duration-float-havoc")
+			i.world.objID++
+			return symv{i.ts().Var(fmt.Sprintf("durfloat!%d", i.world.objID), sortFP), types.Float64}
 		}
 		return f(time.Duration(a[0].(int64)))
 	}
